@@ -1,12 +1,12 @@
 SPECIFICATION Spec
 CONSTANTS
-    N = 3
+    N = 4
     K = 1
-    NanIsError = FALSE
+    Variant = "regress-a05df8f"
 INVARIANT PivotsAreMinorRatios
 INVARIANT FactorsExact
 INVARIANT SpdAccepted
 INVARIANT ErrorClause
+INVARIANT OkIsFinite
 INVARIANT DefectExtent
-INVARIANT Replay
 CHECK_DEADLOCK FALSE
